@@ -34,6 +34,24 @@ CLAIMED['C06'] = ('TLC-generated single-fault documents (GenFault.tla: 13 fault 
                   '(exception class) for every printed form against that model',
                   'trusted: TLC, pv/surface.py, exception class names; messages are ignored',
                   'DESIGN.md 2.3, 5 (C06)')
+CLAIMED['C12'] = ('Session!ParseCall(route, bom, doc, opts): 8 entry points + 6 refused source types x BOM x options on TLC-generated '
+                  'documents; outcome and renderer classes compared by TLC',
+                  'the specification makes the outcome a function of the document and of the options the route accepts (RouteIndependent); '
+                  'every route x BOM x option cell is executed for each generated document and validated by TLC',
+                  'trusted: TLC, pv/c12.py route driver (UTF-8 files in a temp dir), pv/project.py',
+                  'DESIGN.md 2.8, 5 (C12)')
+CLAIMED['C14'] = ('TLC-generated documents with declared comments (capture: compared with Doc!ParseDoc) and with extra comments at every '
+                  'line gap / line end (inertness: compared under Doc!MaskComments); output-side clauses by the renderer checks',
+                  'capture rule and masking are operators of Doc.tla; one comment at every gap of small documents exhaustively, several '
+                  'at once on larger ones, in 14 shapes/contents',
+                  'trusted: TLC, pv/surface.py comment placement, comment text compared line-wise trimmed',
+                  'DESIGN.md 2.4, 5 (C14)')
+CLAIMED['C15'] = ('TLC-generated documents with/without properties parsed under both option values; TLC compares with '
+                  'Doc!ParseDoc(doc, TRUE/FALSE) and requires neutrality (model, .dbml, .sql) for property-free documents',
+                  'properties are part of the abstract document; option-off = syntax error iff property syntax is used; '
+                  'DesignOptionNeutral checked by TLC on every generated document',
+                  'trusted: TLC, pv/surface.py, pv/project.py',
+                  'DESIGN.md 5 (C15)')
 NOT_YET = {}
 
 def main():
